@@ -4,6 +4,8 @@ Only property theorems and non-vacuity examples; lemmas are in Rpki/Proofs/Chain
 -/
 import Rpki.Proofs.AsDerCodec
 import Rpki.Proofs.IpDerCodec
+import Rpki.Proofs.ResTextLemmas
+import Rpki.Proofs.ResTextV6
 import Rpki.Proofs.ChainPrefix
 import Rpki.Proofs.ChainOps
 namespace Rpki.C03
@@ -170,6 +172,39 @@ theorem ipBlocks_decode_den (W : Nat) (b : List Nat) (hb : ∀ x ∈ b, x < 256)
 theorem ipBlock_v4_shape (b : List Nat) (blk : Blk) (rest : List Nat)
     (h : IpDer.takeOptBlock 32 b = .ok blk rest) : blk.lo % 2 ^ 96 = 0 ∧ blk.hi % 2 ^ 96 = 2 ^ 96 - 1 :=
   IpDer.takeOptBlock_v4_shape' b blk rest h
+
+
+/-! ## text forms (`Model/ResText.lean`; the formatters and the parsers are each tied to the library
+by `as-fmt`, `ip-fmt`, `as-parse`, `ip-parse`) -/
+
+/-- **AS sets.** The text form of every canonical AS set parses back to the same set. -/
+theorem as_text_roundtrip (c : List Blk) (hc : Canon 4294967295 c) :
+    ResText.parseAs (ResText.fmtAs c) = some c := ResText.parseAs_fmt c hc
+
+/-- Decimal numbers are read back, and different numbers are written differently. -/
+theorem decimal_roundtrip (n : Nat) (h : n < 2 ^ 32) :
+    ResText.parseU32 (ResText.decimal n) = some n ∧ ∀ m, ResText.decimal m = ResText.decimal n → m = n :=
+  ⟨ResText.parseU32_decimal n h, fun m hm => ResText.decimal_injective m n hm⟩
+
+/-- **IPv4 addresses** in dotted-quad form and **IPv6 addresses** in the RFC 5952 form the
+formatter writes (first longest run of zero groups compressed, IPv4-mapped addresses in mixed
+notation) are read back as the same address — for all 2^32 and all 2^128 addresses. -/
+theorem address_text_roundtrip :
+    (∀ a, a < 2 ^ 32 → ResText.parseV4 (ResText.fmtV4 a) = some a) ∧
+    (∀ a, a < 2 ^ 128 → ResText.parseV6 (ResText.fmtV6 a) = some a) :=
+  ⟨ResText.parseV4_fmtV4, ResText.parseV6_fmtV6⟩
+
+/-- **IPv4 sets.** The text form of any list of IPv4 blocks — prefixes with their length, ranges,
+single addresses — parses back to blocks with the same bounds (a `/32` is written as a bare
+address and read as a one-address range: the same set). -/
+theorem ipv4_text_roundtrip (ts : List ResText.TBlk) (h : ∀ t ∈ ts, ResText.V4Shaped t) :
+    (ResText.parseIpItems true (ResText.fmtIp true ts)).map (·.map ResText.tblkBounds) =
+      some (ts.map ResText.tblkBounds) := ResText.parseIpItems_fmt_v4 ts h
+
+example : ResText.parseV6 (ResText.fmtV6 (2 ^ 112 + 2 ^ 48 + 5)) = some (2 ^ 112 + 2 ^ 48 + 5) :=
+  ResText.parseV6_fmtV6 _ (by decide)
+example : ResText.V4Shaped (.pfx (10 * 2 ^ 120) 8) := by
+  refine ⟨by decide, by decide, by decide, by decide⟩
 
 
 /-! ## Non-vacuity -/
